@@ -54,6 +54,10 @@ EXTRA_TEMPLATES = [
     ('import-stmt', "import b", "\nA: 'a';"),
     ('reference-stmt', "reference textx", "\nA: 'a';"),
     ('qualified-ref', "reference textx as t\nA: a=[t.", "];"),
+    # a rule whose whole body is one rule reference with an operator / modifier after it
+    ('alias-op', "A: B", "; B: 'b';"),
+    ('alias-basetype-op', "A: INT", ";"),
+    ('alias-op-used', "M: a=A; A: B", "; B: x=ID;"),
 ]
 
 
